@@ -285,11 +285,160 @@ async def script(loop, ctx):
     return [Case.make(cid, HELD, spec=ctx["spec"], nontrivial=nontriv, key=common.h(sample), sample=sample)]
 
 
+# ---------------------------------------------------------------- scheduled tier
+# A POP3 session reads its snapshot (RETR / TOP / LIST n / UIDL n) while IMAP
+# sessions remove or move messages, under the deterministic scheduler: whatever
+# the interleaving, message number n yields the message that had number n when
+# the POP3 session began, or an error reply -- never another message.
+SCHED_IMAP = [
+    ["EXPUNGE"], ["UID EXPUNGE 2"], ["UID MOVE 1:2 other"], ["UID STORE 1,3 +FLAGS (\\Deleted)", "EXPUNGE"], ["UID MOVE 4 other", "EXPUNGE"],
+    ["UID STORE 1:* +FLAGS (\\Deleted)", "CLOSE"], ["UID COPY 1:* other", "EXPUNGE"],
+]
+
+
+def run_sched_shard(spec):
+    import asyncio
+    import re
+    import shutil
+    import tempfile
+    from collections import Counter
+
+    from ..rig import Rig, run_case
+    from ..vloop import WallWatchdog, fifo_all_strategy, one_at_a_time_strategy, random_strategy
+    from . import c10
+
+    counts = Counter()
+    cases = []
+    scratch = spec["scratch"]
+    for k in spec["scripts"]:
+        rnd = rng(spec["seed"], "c20sched", k)
+        imap_cmds = [list(rnd.choice(SCHED_IMAP)) for _ in range(rnd.choice([1, 1, 2]))]
+        nums = [rnd.randint(1, 5) for _ in range(rnd.randint(2, 4))]
+        pop_cmds = []
+        for n in nums:
+            pop_cmds.append(rnd.choice([f"RETR {n}", f"RETR {n}", f"TOP {n} 1", f"UIDL {n}", f"LIST {n}"]))
+        hashes = set()
+        witness = None
+        checks = 0
+        for i in range(spec.get("nsched", 6)):
+            d = tempfile.mkdtemp(prefix="m", dir=scratch)
+            holder = {}
+
+            async def main(loop, d=d):
+                holder["loop"] = loop
+                rig = await Rig(d + "/mail", loop).start()
+                problems = []
+                try:
+                    cids, table = await c10.setup_state(rig)
+                    snap = [table[("INBOX", n)] for n in range(1, 6)]
+                    p = rig.pop3("P")
+                    st = await p.cmd("STAT")
+                    uidl = await p.cmd("UIDL")
+                    uids = {}
+                    if uidl is not None and uidl.ok and uidl.body is not None:
+                        for ln in uidl.body.decode("latin-1").split("\r\n"):
+                            if ln.strip():
+                                a, b = ln.split()
+                                uids[int(a)] = b
+                    sessions = []
+                    for j, cmds in enumerate(imap_cmds):
+                        s_ = rig.session(f"I{j}")
+                        await s_.cmd("SELECT INBOX")
+                        sessions.append((s_, cmds))
+                    await rig.settle()
+                    out = []
+
+                    async def pace():
+                        # client think time as a schedulable event: a no-op thread job whose
+                        # completion the scheduler releases among the server's own completions
+                        for _ in range(loop.rng.randint(0, 3)):
+                            await loop.run_in_executor(None, int)
+
+                    async def pop():
+                        for c in pop_cmds:
+                            await pace()
+                            out.append((c, await p.cmd(c)))
+
+                    async def imap(s_, cmds):
+                        for c in cmds:
+                            await s_.cmd(c)
+
+                    order = [pop()] + [imap(s_, cmds) for s_, cmds in sessions]
+                    if loop.strategy is not fifo_all_strategy:
+                        loop.rng.shuffle(order)
+                    done, pending = await asyncio.wait([asyncio.create_task(x) for x in order], timeout=600)
+                    for t in pending:
+                        t.cancel()
+                    for t in done:
+                        if t.exception() is not None:
+                            raise t.exception()
+                    n_checks = 0
+                    for c, rep in out:
+                        word, n = c.split()[0], int(c.split()[1])
+                        if rep is None:
+                            problems.append(("pop3-no-reply", f"{c}: connection closed={p.writer.closed}; log={[x[2][:160] for x in rig.log_records[-2:]]}"))
+                            break
+                        if not rep.ok:
+                            continue  # "-ERR message not available": the snapshot entry is gone, which is said, not faked
+                        n_checks += 1
+                        if word in ("RETR", "TOP"):
+                            m = re.search(rb"X-CID:\s*(\S+)", rep.body or b"")
+                            got = m.group(1).decode() if m else None
+                            if got != snap[n - 1]:
+                                problems.append(("retr-returned-another-message", f"{c}: message number {n} is {snap[n - 1]} in the snapshot, the reply carries {got}"))
+                        elif word == "UIDL":
+                            parts = rep.line.split()
+                            if len(parts) >= 3 and uids.get(n) is not None and parts[2] != uids[n]:
+                                problems.append(("uidl-changed", f"{c}: was {uids[n]}, now {parts[2]}"))
+                    return problems, n_checks
+                finally:
+                    try:
+                        await rig.stop()
+                    except Exception:
+                        pass
+
+            try:
+                strategy = fifo_all_strategy if i == 0 else rnd.choice([random_strategy, random_strategy, one_at_a_time_strategy])
+                sd = rnd.randrange(1 << 30)
+                problems, n_checks = run_case(main, seed=sd, scheduled=True, wall_budget=60, strategy=strategy)
+            except WallWatchdog:
+                counts["sched_wall_watchdog"] += 1
+                continue
+            except Exception:
+                counts["sched_harness_error"] += 1
+                continue
+            finally:
+                shutil.rmtree(d, ignore_errors=True)
+            counts["schedules"] += 1
+            counts["sched_snapshot_checks"] += n_checks
+            checks += n_checks
+            hashes.add(common.h(holder["loop"].trace))
+            if problems and witness is None:
+                witness = {"kind": problems[0][0], "detail": problems[0][1], "all": [x[0] for x in problems], "pop3": pop_cmds, "imap": imap_cmds, "schedule": list(holder["loop"].trace)[:200], "seed": sd, "strategy": strategy.__name__}
+        counts["distinct_schedules"] += len(hashes)
+        sample = {"pop3": pop_cmds, "imap": imap_cmds, "distinct_schedules": len(hashes), "snapshot_checks": checks}
+        key = common.h([pop_cmds, imap_cmds])
+        if witness:
+            cases.append(Case.make(f"sched{k}", VIOLATED, spec=dict(spec, scripts=[k]), nontrivial=True, key=key, sample=sample, witness=witness))
+        elif not hashes:
+            cases.append(Case.make(f"sched{k}", INCONCLUSIVE, spec=dict(spec, scripts=[k]), reason="no schedule completed", sample=sample))
+        else:
+            cases.append(Case.make(f"sched{k}", HELD, spec=dict(spec, scripts=[k]), nontrivial=len(hashes) > 1 and checks > 0, key=key, sample=sample))
+    return {"cases": cases, "counts": dict(counts)}
+
+
 def plan(tier, seed, scale):
-    return base.plan_scripts(PROP, tier, seed, scale, quick=416, thorough=8000)
+    specs = base.plan_scripts(PROP, tier, seed, scale, quick=416, thorough=8000)
+    n = int((48 if tier == "quick" else 800) * scale)
+    shards = 8 if tier == "quick" else 16
+    for s in range(shards):
+        specs.append({"prop": PROP, "tier": tier, "seed": seed, "shard": 100 + s, "mode": "sched", "scripts": list(range(n))[s::shards], "nsched": 6 if tier == "quick" else 20})
+    return specs
 
 
 def run_shard(spec):
+    if spec.get("mode") == "sched":
+        return run_sched_shard(spec)
     return base.run_scripts(spec, script)
 
 
